@@ -54,20 +54,24 @@ pub struct Config {
     pub red2_opt: Given,
     pub red2_meta: Given,
     pub load_matching: bool,
+    /// where the metadata lines sit in the components file: 0 at the top, 1 after the first data line, 2 at the end,
+    /// 3 scattered between the data lines (metadata is metadata wherever it is written); bit 2: a comment line first
+    #[serde(default)]
+    pub meta_layout: u8,
 }
 
 fn pick_area(r: &mut Rng, for_option: bool) -> Given {
     match r.below(8) {
-        0..=2 => Given::Valid(r.pick(&["1", "50", "200.5", "0.0011", "1000000", "37.25", "0.5"]).to_string()),
-        3 => Given::Invalid(r.pick(&["0", "0.001", "0.0005", "-5", "-0.5"]).to_string()),
+        0..=2 => Given::Valid(r.pick(&["1", "50", "200.5", "0.0011", "1000000", "37.25", "0.5", "2e2", "5e-1", "1.5E1", "+3", "12.", ".75", "007", "1.1e-3"]).to_string()),
+        3 => Given::Invalid(r.pick(&["0", "0.001", "0.0005", "-5", "-0.5", "1e-3", "-2e2", "0e0"]).to_string()),
         4 => Given::Invalid(if for_option { r.pick(&["abc", "1,5", "10m2", "2 m"]).to_string() } else { r.pick(&["abc", "1,5", "10m2", "", "dos"]).to_string() }),
         _ => Given::Absent,
     }
 }
 fn pick_kexp(r: &mut Rng, for_option: bool) -> Given {
     match r.below(8) {
-        0..=2 => Given::Valid(r.pick(&["0", "1", "0.5", "0.3", "1.0", "0.0", "0.7"]).to_string()),
-        3 => Given::Invalid(r.pick(&["-0.1", "1.5", "2", "1.0001", "-1"]).to_string()),
+        0..=2 => Given::Valid(r.pick(&["0", "1", "0.5", "0.3", "1.0", "0.0", "0.7", "5e-1", "1e0", "0e0", "+0.5", ".5", "1.", "0.50", "3E-1"]).to_string()),
+        3 => Given::Invalid(r.pick(&["-0.1", "1.5", "2", "1.0001", "-1", "1.5e0", "2e0", "-1e-1"]).to_string()),
         4 => Given::Invalid(if for_option { r.pick(&["x", "0,5", "medio"]).to_string() } else { r.pick(&["x", "0,5", "", "medio"]).to_string() }),
         _ => Given::Absent,
     }
@@ -159,6 +163,7 @@ fn gen_config_base(r: &mut Rng) -> Config {
         red2_opt: if ffile.is_none() { pick_red(r, true) } else { Given::Absent },
         red2_meta: pick_red(r, false),
         load_matching: r.chance(1, 4),
+        meta_layout: if r.chance(1, 2) { 0 } else { r.below(8) as u8 },
     }
 }
 
@@ -273,13 +278,45 @@ pub fn expected(c: &Config) -> Expected {
 }
 
 fn components_text(c: &Config) -> String {
-    let mut s = String::new();
+    let mut meta = vec![];
     for (key, g) in [("CTE_AREAREF", &c.area_meta), ("CTE_KEXP", &c.kexp_meta), ("CTE_LOCALIZACION", &c.loc_meta), ("CTE_RED1", &c.red1_meta), ("CTE_RED2", &c.red2_meta)] {
         if let Some(t) = g.text() {
-            s.push_str(&format!("#META {key}: {t}\n"));
+            meta.push(format!("#META {key}: {t}"));
         }
     }
-    s.push_str(BASE);
+    let data: Vec<&str> = BASE.lines().collect();
+    let mut out: Vec<String> = vec![];
+    if c.meta_layout & 4 != 0 {
+        out.push("# edificio de prueba".to_string());
+    }
+    match c.meta_layout & 3 {
+        0 => {
+            out.extend(meta);
+            out.extend(data.iter().map(|l| l.to_string()));
+        }
+        1 => {
+            out.push(data[0].to_string());
+            out.extend(meta);
+            out.extend(data[1..].iter().map(|l| l.to_string()));
+        }
+        2 => {
+            out.extend(data.iter().map(|l| l.to_string()));
+            out.extend(meta);
+        }
+        _ => {
+            // one metadata line after each of the first data lines, the rest at the end
+            let mut m = meta.into_iter();
+            for l in &data {
+                out.push(l.to_string());
+                if let Some(x) = m.next() {
+                    out.push(x);
+                }
+            }
+            out.extend(m);
+        }
+    }
+    let mut s = out.join("\n");
+    s.push('\n');
     s
 }
 
